@@ -189,7 +189,7 @@ func enumerate(thorough bool, emit func(gen.NestedOpt)) {
 					if sibling && depth == 3 && !thorough {
 						continue
 					}
-					for _, deleg := range []string{"authorised", "unlisted", "foreign"} {
+					for _, deleg := range []string{"authorised", "unlisted", "foreign", "other-step"} {
 						for _, pr := range []string{"match", "violated"} {
 							for _, d := range defects {
 								levels := []int{0}
@@ -293,7 +293,7 @@ func replay(c *mcx.Ctx, raw json.RawMessage) (string, string) {
 func init() {
 	mcx.Register(&mcx.Driver{
 		ID: "C08", Run: run, Replay: replay,
-		Rule: "full product over a generated family of nested supply chains: nesting depth 2 (thorough: + 3) x deepest layout with two steps or one step x with/without a second delegation by another functionary x with/without a second authorised functionary delivering a plain link for the delegated step (threshold 1 / 2) x with/without a foreign signature in front of the delegate's on the sublayout x who offers the level-2 layout {authorised, defined but not listed for the step, foreign} x parent rules {matching the summary, violated by it} x defect {none, sublayout signed by another key, signature corrupted, expired (owned clock), link missing / tampered / by an unauthorised key, rule violated, threshold unmet} x level of the defect 1..depth x {legacy, DSSE} x {InTotoVerify, InTotoVerifyWithDirectory with a run directory that is not the link directory}; plus, for a threshold-2 step, the same sublayout handed in by two functionaries with both directories complete, the second missing, the second without links; " +
+		Rule: "full product over a generated family of nested supply chains: nesting depth 2 (thorough: + 3) x deepest layout with two steps or one step x with/without a second delegation by another functionary x with/without a second authorised functionary delivering a plain link for the delegated step (threshold 1 / 2) x with/without a foreign signature in front of the delegate's on the sublayout x who offers the level-2 layout {authorised, defined but not listed for the step, foreign, authorised for the preceding step only} x parent rules {matching the summary, violated by it} x defect {none, sublayout signed by another key, signature corrupted, expired (owned clock), link missing / tampered / by an unauthorised key, rule violated, threshold unmet} x level of the defect 1..depth x {legacy, DSSE} x {InTotoVerify, InTotoVerifyWithDirectory with a run directory that is not the link directory}; plus, for a threshold-2 step, the same sublayout handed in by two functionaries with both directories complete, the second missing, the second without links; " +
 			"each under every order of the sublayout loops and the counting loop (thorough: + one deviation elsewhere). Every layout carries a marker inspection. quick keeps unauthorised delegations to defect-free chains. non-trivial = anything but the plain honest 2-step nesting. states = cases, transitions = choice points.",
 		Assumptions: []string{"the verdict is known by construction; REQUIRE rules in every parent make an empty or wrong summary visible", "sublayouts delegated to a certificate functionary are outside the family (don't-care)"},
 	})
